@@ -214,7 +214,7 @@ func judgeProc(c *core.Ctx, name string, dev bool, jobs []rcorpus.Job, run corpu
 					res.mixed++
 				}
 				if o.Err != nil || !ok {
-					bad("dev-mix", "%s: err=%v; output is not a forward-only mix of the %d text-file versions: %q", where, o.Err, len(vs), o.Bytes())
+					bad("dev-mix", "%s: err=%s; output is not a forward-only mix of the %d text-file versions: %q; version references: %q", where, errText(o.Err), len(vs), o.Bytes(), vs)
 				}
 				return
 			}
@@ -222,7 +222,7 @@ func judgeProc(c *core.Ctx, name string, dev bool, jobs []rcorpus.Job, run corpu
 			case "":
 				res.okRenders++
 				if o.Err != nil || !ref.IsWhole(o) {
-					bad("isolation", "%s: err=%+v, writer received %d bytes (hash %s); sequential reference has %d bytes (hash %x)", where, o.Err, o.N, o.H, ref.L(), ref.Prefix[ref.L()])
+					bad("isolation", "%s: err=%s, writer received %d bytes (hash %s); sequential reference has %d bytes (hash %x)", where, errText(o.Err), o.N, o.H, ref.L(), ref.Prefix[ref.L()])
 				}
 			default:
 				res.faulted++
@@ -233,15 +233,15 @@ func judgeProc(c *core.Ctx, name string, dev bool, jobs []rcorpus.Job, run corpu
 					bad("faulted-nil", "%s fault %s k=%d: Render returned nil but %d of %d bytes arrived", where, ev.Kind, ev.K, o.N, ref.L())
 				}
 				if ev.Kind == "xf" && (o.Err == nil || !o.Err.IsSentinel) {
-					bad("faulted-xf", "%s failing %s: err=%+v does not wrap the sentinel", where, ev.Fail, o.Err)
+					bad("faulted-xf", "%s failing %s: err=%s does not wrap the sentinel", where, ev.Fail, errText(o.Err))
 				}
 				if ev.Kind == "hard" && o.Fired && (o.Err == nil || !o.Err.IsInjected) {
-					bad("faulted-hard", "%s hard fault k=%d: err=%+v does not wrap the injected error", where, ev.K, o.Err)
+					bad("faulted-hard", "%s hard fault k=%d: err=%s does not wrap the injected error", where, ev.K, errText(o.Err))
 				}
 			}
 			if len(res.samples) < 1 && ev.G == 1 && ev.Kind != "" {
 				res.samples = append(res.samples, map[string]any{"process": name, "phase": ev.Tag, "goroutine": ev.G, "render": ev.I, "component": ev.Key,
-					"fault": ev.Kind, "k": ev.K, "received": o.N, "reference_len": ref.L(), "err": fmt.Sprintf("%+v", o.Err)})
+					"fault": ev.Kind, "k": ev.K, "received": o.N, "reference_len": ref.L(), "err": errText(o.Err)})
 			}
 		}
 	})
@@ -273,6 +273,13 @@ func judgeProc(c *core.Ctx, name string, dev bool, jobs []rcorpus.Job, run corpu
 		res.viols = append(res.viols, Case{Name: name, DevMode: dev, Jobs: jobs, Rule: r.key, Detail: text})
 	}
 	return res
+}
+
+func errText(e *rcorpus.ErrFacts) string {
+	if e == nil {
+		return "nil"
+	}
+	return fmt.Sprintf("error{%q injected:%v short:%v canceled:%v sentinel:%v}", e.Msg, e.IsInjected, e.IsShort, e.IsCanceled, e.IsSentinel)
 }
 
 func readRaceLogs(prefix string) string {
@@ -317,7 +324,7 @@ func mixComps(c *core.Ctx) []rcorpus.Comp {
 
 // devSetup produces the development-mode text files with the real
 // FSEventHandler: every .templ file of the package once, then dev.templ in its
-// text-only versions VER1, VER2 (and back to VER0). Returns the text-file
+// text-only versions VER1 … VER4 (and back to VER0). Returns the text-file
 // path of dev.templ and its version contents.
 func devSetup(c *core.Ctx, b *rcorpus.Built, root string) (string, []string) {
 	os.Setenv("TEMPL_DEV_MODE_ROOT", root)
@@ -349,7 +356,7 @@ func devSetup(c *core.Ctx, b *rcorpus.Built, root string) (string, []string) {
 	}
 	txt := templruntime.GetDevModeTextFileName(filepath.Join(b.Pkg.Dir, "dev.templ"))
 	var versions []string
-	for v := 0; v < 3; v++ {
+	for v := 0; v < 5; v++ {
 		src := strings.ReplaceAll(files["dev.templ"], "VER0", fmt.Sprintf("VER%d", v))
 		if v > 0 {
 			r := handle("dev.templ", src)
@@ -377,7 +384,7 @@ func devSetup(c *core.Ctx, b *rcorpus.Built, root string) (string, []string) {
 func Run(c *core.Ctx) {
 	c.Rule = "cases = concurrent phases: G goroutines × M renders over the shared template set (hand-written components with package-level once handles, css classes and script values + seeded random Interp trees), " +
 		"odd goroutines render into faulting writers (hard/short/zero at a random offset, failing expression), every 4th goroutine's writer yields per Write; DefaultBufferSize 8/16/64; with and without the H2 hook installed; " +
-		"development mode: same, text files from the real FSEventHandler, plus a goroutine replacing dev.templ's text file (2 rewrites) during the phase. " +
+		"development mode: same, text files from the real FSEventHandler, plus a goroutine replacing dev.templ's text file (4 rewrites per phase). " +
 		"non-trivial = phases in which the pool hook saw a buffer released by one goroutine and handed to another, and dev-mode renders that contain bytes of two text-file versions."
 	c.Assume("the Go race detector reports only races it observes in these executions (no false positives, many false negatives)")
 	c.Assume("sequential references are rendered in the same driver process before each concurrent phase")
@@ -405,16 +412,18 @@ func Run(c *core.Ctx) {
 	} else {
 		comps := mixComps(c)
 		seeds := c.Rand("conc")
-		scale := c.Pick(1, 12)
+		scale := c.Pick(2, 20)
 		type shape struct{ g, m, buf int }
 		shapes := []shape{{4, 5000 * scale, 8}, {16, 2000 * scale, 64}, {64, 600 * scale, 16}}
 		for _, s := range shapes {
 			for _, hook := range []bool{true, false} {
 				name := fmt.Sprintf("g%d-hook%v", s.g, hook)
 				jobs := []rcorpus.Job{{Op: "config", BufSize: s.buf, Gid: true}}
-				// two phases per process: all well-behaved writers, then half faulting
-				jobs = append(jobs, rcorpus.Job{Op: "conc", Tag: name + "/clean", G: s.g, M: s.m / 2, Seed: seeds.Int63n(1 << 40), Comps: comps, Hook: hook, Gid: true, Gosched: true})
-				jobs = append(jobs, rcorpus.Job{Op: "conc", Tag: name + "/faults", G: s.g, M: s.m / 2, Seed: seeds.Int63n(1 << 40), Comps: comps, Hook: hook, Gid: true, Gosched: true, Fault: true})
+				// four phases per process: all writers well-behaved / half of the goroutines faulting
+				for ph := 0; ph < 4; ph++ {
+					jobs = append(jobs, rcorpus.Job{Op: "conc", Tag: fmt.Sprintf("%s/ph%d", name, ph), G: s.g, M: s.m / 4, Seed: seeds.Int63n(1 << 40),
+						Comps: comps, Hook: hook, Gid: true, Gosched: true, Fault: ph%2 == 1})
+				}
 				procs = append(procs, proc{name: name, jobs: jobs})
 			}
 		}
